@@ -90,7 +90,7 @@ def run(chk):
     tie_ok, tie_msg = K.tables_tie()
     chk.log(tie_msg.split('\n')[0])
     r = chk.prove()
-    variant = 'plain'
+    variant = 'plain' if quick else 'asan'
     exes = K.build_all(variant)
     table = G.parse_table(K.insn_table(exes[0]))
     # the model's insn table against the tree's (second, dynamic side of the table tie)
